@@ -228,7 +228,7 @@ fn oracle_run(prog: &[St]) -> String
 			St::Align(n) =>
 			{
 				let Some(c) = cursor else {status = format!("E{t} inactive"); break;};
-				// the alignment is computed on the true cursor (2^32 after a region filled through 0xFFFFFFFF)
+				// the alignment is computed on the true (64-bit) cursor: a region filled through 0xFFFFFFFF ends at 2^32
 				let off = c % *n as u64;
 				if off == 0 {continue;}
 				((*n as u64 - off) as usize, Some(vec![0xBE; (*n as u64 - off) as usize]))
